@@ -170,6 +170,84 @@ func (ex *Exec) modelled(st *State, ref string, fn *types.Func, recv *Val, args 
 	case "runtime/metrics.Value.Uint64":
 		// a reading of the Go runtime: any value
 		return one(ex.freshVal(r0(), "rtmetric"))
+	case "io.ReadAll":
+		// content tokens: the bytes read are the reader's content when the read succeeds (ghosts content, readOK)
+		if gc, ok := ex.eng.cs.Ghosts["content"]; ok && len(args) == 1 && args[0].Sh != nil && args[0].Sh.IsLeaf() && sc == nil {
+			rs := ex.freshResults(fn, resT, "readall")
+			if len(rs) == 2 && rs[0].Sh != nil && rs[0].Sh.Kind == "slice" {
+				ex.eng.smt.declFun("uf_bytesTok", "(declare-fun uf_bytesTok ((Array Int Int) Int) Int)")
+				tok := "(uf_bytesTok " + rs[0].kid("elems").S + " " + rs[0].kid("len").S + ")"
+				cur := ex.readLoc(st, ex.ghostLoc(gc, []*Val{args[0]}))
+				st.assume(implies(eq(rs[1].S, "0"), eq(tok, cur.S)))
+				if gr, ok := ex.eng.cs.Ghosts["readOK"]; ok {
+					ex.writeLoc(st, ex.ghostLoc(gr, []*Val{args[0]}), ex.boolVal(eq(rs[1].S, "0")))
+				}
+				ex.modelUsed[ref]++
+				return rs, true
+			}
+		}
+	case "bytes.NewBuffer":
+		if gc, ok := ex.eng.cs.Ghosts["content"]; ok && len(args) == 1 && args[0].Sh != nil && args[0].Sh.Kind == "slice" && sc == nil {
+			ex.eng.smt.declFun("uf_bytesTok", "(declare-fun uf_bytesTok ((Array Int Int) Int) Int)")
+			r := ex.freshVal(r0(), "buffer")
+			if r.Sh.IsLeaf() && r.Sh.Leaf == "Int" {
+				st.assume("(> " + r.S + " " + ex.eng.alloc0() + ")")
+				ex.writeLoc(st, ex.ghostLoc(gc, []*Val{r}), ex.intVal("(uf_bytesTok "+args[0].kid("elems").S+" "+args[0].kid("len").S+")", types.Typ[types.Int]))
+				return one(r)
+			}
+		}
+	case "net/http.ResponseWriter.Header":
+		// with http.Header as a real map (unopaque): the writer's header map lives in a ghost cell of the writer
+		if recv != nil && ex.curCall != nil && sc == nil {
+			if loc := ex.respHeaderLoc(st, ex.curCall); loc != nil {
+				return one(ex.readLoc(st, loc))
+			}
+		}
+	case "net/http.Header.Get", "net/http.Header.Set", "net/http.Header.Add", "net/http.Header.Del", "net/http.Header.Values":
+		// only when http.Header has its real shape (map[string][]string); otherwise the assumed contracts apply
+		if recv == nil || recv.Sh == nil || recv.Sh.Kind != "map" || len(args) == 0 || args[0].Sh == nil || !args[0].Sh.IsLeaf() {
+			break
+		}
+		ex.eng.smt.declFun("sf_canonHeader", "(declare-fun sf_canonHeader (String) String)")
+		ex.eng.smt.addFunAx("sf_canonHeader", "(forall ((k String)) (! (= (sf_canonHeader (sf_canonHeader k)) (sf_canonHeader k)) :pattern ((sf_canonHeader k))))")
+		ck := &Val{Sh: args[0].Sh, T: args[0].T, S: "(sf_canonHeader " + args[0].S + ")"}
+		mt := recv.T.Underlying().(*types.Map)
+		cur := ex.retype(ex.selectVal(recv.kid("val"), ck.S), mt.Elem())
+		has := "(select " + recv.kid("dom").S + " " + ck.S + ")"
+		back := func(m *Val) {
+			if ex.curCall != nil {
+				if sel, ok := ex.curCall.Fun.(*ast.SelectorExpr); ok {
+					ex.assignBack(st, sel.X, m)
+				}
+			}
+		}
+		switch ref {
+		case "net/http.Header.Get":
+			first := ex.selectVal(cur.kid("elems"), "0")
+			return one(&Val{Sh: first.Sh, T: r0(), S: "(ite (and " + has + " (> " + cur.kid("len").S + " 0)) " + first.S + " \"\")"})
+		case "net/http.Header.Values":
+			return one(ex.iteVal(has, cur, ex.zeroVal(mt.Elem())))
+		case "net/http.Header.Set":
+			if len(args) == 2 && sc == nil {
+				one1 := ex.zeroVal(mt.Elem())
+				nv := &Val{Sh: one1.Sh, T: mt.Elem(), Kids: []*Val{ex.intVal("1", types.Typ[types.Int]), ex.storeVal(one1.kid("elems"), "0", args[1])}}
+				back(ex.mapStore(recv, ck, nv))
+				return none()
+			}
+		case "net/http.Header.Add":
+			if len(args) == 2 && sc == nil {
+				old := ex.iteVal(has, cur, ex.zeroVal(mt.Elem()))
+				n := old.kid("len").S
+				nv := &Val{Sh: old.Sh, T: mt.Elem(), Kids: []*Val{ex.intVal("(+ "+n+" 1)", types.Typ[types.Int]), ex.storeVal(old.kid("elems"), n, args[1])}}
+				back(ex.mapStore(recv, ck, nv))
+				return none()
+			}
+		case "net/http.Header.Del":
+			if sc == nil {
+				back(ex.mapDelete(recv, ck))
+				return none()
+			}
+		}
 	case "cmp.Less":
 		if len(args) == 2 && args[0].Sh != nil && args[0].Sh.IsLeaf() {
 			switch args[0].Sh.Leaf {
@@ -755,6 +833,28 @@ func (ex *Exec) guardCheck(st *State, loc *Loc, at interface{ Pos() token.Pos },
 	goal = or(goal, fresh)
 	ex.guardN[loc.Path[0]+what]++
 	ex.obligNamed(st, "held", fmt.Sprintf("held(%s):%s:%s#%d", mu, what, loc.Path[0], ex.guardN[loc.Path[0]+what]), at.Pos(), goal, fmt.Sprintf("%s of %s.%s requires %s held", what, loc.TKey, loc.Path[0], mu))
+}
+
+// respHeaderLoc: the ghost cell holding the header map of a ResponseWriter, when `call` is w.Header()
+// and http.Header has its real shape.
+func (ex *Exec) respHeaderLoc(st *State, call *ast.CallExpr) *Loc {
+	sel, ok := call.Fun.(*ast.SelectorExpr)
+	if !ok || sel.Sel.Name != "Header" || len(call.Args) != 0 {
+		return nil
+	}
+	t := ex.typeOf(call)
+	if t == nil || types.TypeString(t, nil) != "net/http.Header" {
+		return nil
+	}
+	sh := ex.eng.sh.shapeOf(t)
+	if sh.Kind != "map" {
+		return nil
+	}
+	w := ex.eval(st, sel.X, nil)
+	if w == nil || w.Sh == nil || !w.Sh.IsLeaf() {
+		return nil
+	}
+	return &Loc{Heap: true, TKey: "G$", Ref: w.S, Path: []string{"respHeader"}, Sh: sh, T: t}
 }
 
 // finalCheck: a field declared `final` is written only in an object allocated by this
